@@ -128,6 +128,16 @@ def h_net_new(w, st, rec):
             w.probes["data.dtype:" + d.dtype.str] += 1
             if d.ndim == 2 and d.flags.f_contiguous and not d.flags.c_contiguous:
                 w.probes["data.fortran_order"] += 1
+    same = rec.get("same_arrays_as")
+    if same:
+        # the caller builds this network from the very array objects it built an earlier one from (having worked on
+        # them in place since): the literal data of this record is what those arrays hold NOW
+        held = st.bufs.get(same + ".data")
+        if not isinstance(held, list) or not all(isinstance(d, np.ndarray) for d in held):
+            raise Skip()
+        data = held
+        rec = dict(rec, data=[enc(np.array(d, copy=True)) for d in held])
+        w.probes["construction.from_the_array_objects_of_an_earlier_network"] += 1
     pgraph, pdata = dec(rec["graph"]), [dec(d) for d in rec["data"]]       # the checker's private copy
     if rec.get("shared_upstream"):
         w.probes["data.environments_share_upstream_columns"] += 1
@@ -595,7 +605,12 @@ def h_net_sample(w, st, rec):
                     break
         net["prev_unseeded"] = {"step": w.step, "pos": now}
     # 5. seeded reproducibility
-    if rec.get("seed") is not None and not failed_peer and not found:
+    #    (also for a call during which the peer failed and which RETURNED all the same - a wrapper that retries the
+    #     failed request: the caller cannot see the transient error, so what it gets for this seed must be what the
+    #     seed gives; a retry that re-establishes the seeded state before each attempt passes)
+    if rec.get("seed") is not None and not found:
+        if failed_peer:
+            w.probes["peer_fault.predict.returned.seeded_result_compared"] += 1
         key = jkey({"spec": net["spec"], "peer": st.peer_cfg, "n": rec.get("n"), "seed": rec["seed"]})
         d = digest(S)
         f = st.first.get(key)
@@ -631,7 +646,8 @@ def h_net_sample(w, st, rec):
                 else:
                     w.violate("seeded_sample_differs", site,
                               {"first_step": f["step"], "seed": rec["seed"], "n": rec.get("n"),
-                               "global_rng_prestates_differ": differ})
+                               "global_rng_prestates_differ": differ,
+                               "peer_failed_during_this_call": bool(failed_peer)})
     if rec.get("burst") and not failed_peer and not found:
         # a long session in one step: the same sample call many times in a row
         pos0 = dict(getattr(w, "last_positions", {}) or {})
@@ -796,8 +812,27 @@ def h_net_drop(w, st, rec):
     return "ok:-", None
 
 
+def h_net_copy(w, st, rec):
+    """The application keeps working with an equal copy of a network (copy.deepcopy, or a pickle round trip: what a
+    worker process receives).  The copy stands for the same (graph, data): every oracle applies to its samples.  A
+    network that cannot be copied is not a violation (nothing documents that it can): the record is skipped."""
+    import pickle
+    src = st.nets.get(rec["net"])
+    if src is None or rec["id"] in st.nets:
+        raise Skip()
+    try:
+        obj = copy.deepcopy(src["obj"]) if rec.get("how") != "pickle" else pickle.loads(pickle.dumps(src["obj"]))
+    except Exception:
+        raise Skip()
+    new = dict(src, obj=obj, nsamples=0)
+    new.pop("prev_unseeded", None)
+    st.nets[rec["id"]] = new
+    w.probes["net.used_through_a_copy:" + rec.get("how", "deepcopy")] += 1
+    return "ok:-", None
+
+
 HANDLERS = {"peer.config": h_peer_config, "net.new": h_net_new, "net.sample": h_net_sample,
-            "fault.scribble": h_scribble, "lib.call": h_lib_call, "net.drop": h_net_drop}
+            "fault.scribble": h_scribble, "lib.call": h_lib_call, "net.drop": h_net_drop, "net.copy": h_net_copy}
 
 
 def execute(sempler, run_seed, ops, pristine_budget=2):
@@ -1085,6 +1120,8 @@ def generate(run_seed, deep=False):
     G.generator_seed_variation(st["genseed"], ops, lambda r: r.get("op") == "net.sample" and not r.get("invalid"))
     np_star_faults(st["np_star"], ops)
     retry_failed_constructions(st["retry"], ops, cfg)
+    same_arrays_variation(st["samearrays"], ops, cfg)
+    copied_networks_variation(st["netcopy"], ops, cfg)
     return cfg, ops
 
 
@@ -1196,6 +1233,54 @@ def retry_failed_constructions(f, ops, cfg):
         ops[at:at] = new
 
 
+def same_arrays_variation(f, ops, cfg):
+    """One network per candidate graph, all fitted to the same arrays: in one run in ten the caller works in place on
+    the data arrays of a network it has built (every value changes) and then builds another network - same graph or
+    the graph without its last edge - from the very same array objects, and samples from it.  Whatever the library
+    remembers about arrays it has seen (by id(), by weak reference) belongs to their old contents.  Decided by a
+    stream of its own, after generation."""
+    news = [(i, r) for i, r in enumerate(ops) if r.get("op") == "net.new" and not r.get("invalid")
+            and not r.get("peer_fault") and not r.get("arm") and "." not in r["id"]]
+    r, pick, gap, seed, n, drop_edge = f.random(), f.random(), f.randint(1, 6), f.choice([0, 1, f.getrandbits(32)]), \
+        f.choice([None, f.randint(5, 30)]), f.random() < 0.4
+    if r >= 0.1 or not news or cfg.get("big") or cfg.get("giant"):
+        return
+    i, old = news[int(pick * len(news))]
+    new = copy.deepcopy(old)
+    new["id"] = old["id"] + "same"
+    new["same_arrays_as"] = old["id"]
+    new.pop("views", None)
+    if drop_edge:
+        A = np.array(dec(old["graph"]), copy=True)
+        fro, to = np.nonzero(A)
+        if len(fro):
+            A[fro[-1], to[-1]] = 0
+            new["graph"] = enc(A)
+    c = old.get("c", 0)
+    at = min(len(ops), i + 1 + gap)
+    ops[at:at] = [{"c": c, "op": "fault.scribble", "target": old["id"] + ".data"}, new] + \
+        [{"c": c, "op": "net.sample", "net": new["id"], "n": n, "seed": seed} for _ in range(2)]
+
+
+def copied_networks_variation(f, ops, cfg):
+    """In one run in ten the application goes on with an equal copy of one of its networks (deepcopy / pickle round
+    trip); the first sample of the copy meets an R error in its k-th fit request, should it send any (a network that
+    fits lazily after unpickling), and the caller simply asks again, twice, with a seed.  Decided by a stream of its
+    own, after generation."""
+    news = [(i, r) for i, r in enumerate(ops) if r.get("op") == "net.new" and not r.get("invalid")
+            and not r.get("peer_fault") and not r.get("arm") and "." not in r["id"]]
+    r, pick, gap, how, k = f.random(), f.random(), f.randint(1, 8), f.choice(["deepcopy", "pickle"]), f.randint(1, 3)
+    seed, n = f.choice([0, 1, f.getrandbits(32)]), f.choice([None, f.randint(5, 30)])
+    if r >= 0.1 or not news or cfg.get("big") or cfg.get("giant"):
+        return
+    i, old = news[int(pick * len(news))]
+    c, nid = old.get("c", 0), old["id"] + "copy"
+    at = min(len(ops), i + 1 + gap)
+    ops[at:at] = [{"c": c, "op": "net.copy", "net": old["id"], "id": nid, "how": how},
+                  {"c": c, "op": "net.sample", "net": nid, "n": n, "seed": seed, "peer_fault": ["fit", k]}] + \
+        [{"c": c, "op": "net.sample", "net": nid, "n": n, "seed": seed} for _ in range(2)]
+
+
 def generate_giant(g, cfg):
     """One run in about 250 (thorough tier) / 330 (quick tier): one environment with thousands of rows and a request
     of thousands of rows (n * N just above 10**7), beyond the block / batch sizes a wrapper may use."""
@@ -1259,7 +1344,7 @@ REQUIRED_PROBES = ["sources>=2.independence_checkable", "sources>=2.functional_d
                    "data.dtype:<f4"] + \
                   ["invalid:" + k for k in sorted(INVALID_NEW)] + ["invalid:" + k for k in sorted(INVALID_N)]
 
-REQUIRED_PROBES = REQUIRED_PROBES + ["thread.calls_outside_main_thread", "fault.died_in_a_numpy_call(np.*)", "sweep.np_star_positions", "construction_died_in_a_numpy_call", "data.environments_share_upstream_columns", "net.dropped", "seed.given_as_Generator", "consecutive_unseeded_samples.draws_compared", "rows_with_equal_parents.order_checkable", "construction.retried_after_a_failed_attempt"]
+REQUIRED_PROBES = REQUIRED_PROBES + ["thread.calls_outside_main_thread", "fault.died_in_a_numpy_call(np.*)", "sweep.np_star_positions", "construction_died_in_a_numpy_call", "data.environments_share_upstream_columns", "net.dropped", "seed.given_as_Generator", "consecutive_unseeded_samples.draws_compared", "rows_with_equal_parents.order_checkable", "construction.retried_after_a_failed_attempt", "construction.from_the_array_objects_of_an_earlier_network", "peer_fault.predict.returned.seeded_result_compared", "net.used_through_a_copy:deepcopy", "net.used_through_a_copy:pickle"]
 
 
 def simplify(op):
